@@ -20,8 +20,9 @@ DIAG = (EOFError, TypeError, AssertionError)
 ALPHA = ['{', '}', '[', ']', '$', '$$', '\\', '\\begin{xenv}', '\\end{yenv}',
          '\\item', '%', ' ', '  ', 'a', 'word', '\\ghost', '\\ghost{z}', '\\[',
          '\\)', '\\begin{verbatim}', '\\end{itemize}', '\\end{center}', '\t',
-         '\\%', '\\\\', 'é']
-GHOSTS = ['ghost', 'xenv', 'yenv', 'verbatim']
+         '\\%', '\\\\', 'é', '\\end{verbatim}', '\\end{lstlisting}', '\\end{equation}',
+         '\\end{document}', '\\end{Verbatim}', '\\begin{equation}', '\\]', '\\end']
+GHOSTS = ['ghost', 'xenv', 'yenv', 'verbatim', 'end', 'lstlisting', 'document']
 CONTEXTS = {
     'top': ('intro \\keep{1} ', 'outro \\keep{2}'),
     'top-bare': ('', ''),
